@@ -48,14 +48,13 @@ where
     | .cons c k r => Json.arr #[Json.str c, forestToJson k] :: go r
 
 def hierOfJson (j : Json) : Except String (HierTab × List Ty) := do
-  let top ← j.getObjValAs? String "top"
   let mro ← listOfJson (pairOfJson strOfJson (listOfJson strOfJson)) (← j.getObjVal? "mro")
   let inst ← listOfJson (pairOfJson strOfJson strOfJson) (← j.getObjVal? "inst")
   let sub ← listOfJson (pairOfJson strOfJson strOfJson) (← j.getObjVal? "sub")
   let auto ← listOfJson (pairOfJson strOfJson (listOfJson (pairOfJson strOfJson strOfJson)))
     (← j.getObjVal? "auto")
   let uni ← listOfJson strOfJson (← j.getObjVal? "universe")
-  return ({ top, mro, inst, sub, auto }, uni)
+  return ({ mro, inst, sub, auto }, uni)
 
 def kindOfStr : String → Except String RegKind
   | "module" => .ok .module
@@ -254,7 +253,7 @@ def failingLookups (H : Hier) (S : Setup) (kinds : List RegKind) :
     here ++ failingLookups H S kinds (n + 1) (refStep H w a) memo' lossy' as os
 
 def run (j : Json) : Except String Json := do
-  let (tab, uni) ← hierOfJson (← j.getObjVal? "hier")
+  let (tab, _uni) ← hierOfJson (← j.getObjVal? "hier")
   let H := tab.toHier
   let kinds ← (← listOfJson strOfJson (← j.getObjVal? "kinds")).mapM kindOfStr
   let orders ← listOfJson (listOfJson strOfJson) (← j.getObjVal? "module_orders")
@@ -264,7 +263,7 @@ def run (j : Json) : Except String Json := do
   let implTrees ← treesOfJson (← impl.getObjVal? "trees")
   let implInit ← treesOfJson (← impl.getObjVal? "init_trees")
   if obs.length != cacts.length then throw "impl.obs does not align with actions"
-  if !(hierWF H tab.top uni) then
+  if !(tableOK tab) then
     return Json.mkObj [("skip", true), ("why", "isinstance/issubclass/__mro__ of this hierarchy are not coherent (outside the property's family)")]
   let S := genSetup
   let w0 := kinds.map (mkReg H S orders)
@@ -358,7 +357,7 @@ def run (j : Json) : Except String Json := do
           ("ran", toJson (expectedRan spec calls))]]
   let treesAgree := (w.zip implTrees).all (fun p => sameTrees p.1.typeTree p.2)
   let agree := initAgree && treesAgree && notes.isEmpty && modelAns == implAns
-  let refW := kinds.map (refMk H S)
+  let refW := kinds.map (refMk H S orders)
   -- `ran` consistency is part of what the property observes ("which registered handler runs")
   let ranOK := (cacts.zip obs).all (fun p => match p.1 with
     | .glom _ spec _ => expectedRan spec p.2.calls == p.2.ran
@@ -372,7 +371,7 @@ def run (j : Json) : Except String Json := do
   let bs := branches.eraseDups
   let sorted := bs.toArray.qsort (· < ·) |>.toList
   return Json.mkObj [("agree", agree), ("holds", holds), ("model_holds", modelHolds),
-    ("wf", hierWF H tab.top uni),
+    ("wf", tableOK tab),
     ("shape_ok", shapeOK),
     ("model", Json.mkObj [("obs", Json.arr modelObs.toArray),
       ("trees", Json.arr (w.map (fun r => Json.arr (r.typeTree.map (fun p =>
